@@ -3,9 +3,11 @@ package props
 import (
 	"fmt"
 	"math"
+	"regexp"
 	"runtime/debug"
 	"strings"
 	"time"
+	"unicode"
 
 	"pgregory.net/rapid"
 )
@@ -82,7 +84,7 @@ var (
 	tinyInts   = []int64{0, 1, 2, 3, -1}
 	tinyUints  = []uint64{0, 1, 2, 3}
 	tinyFloats = []float64{0, 1, 0.5, 2, -1, math.Copysign(0, -1)}
-	tinyStrs   = []string{"", "a", "b", "A", "ab", "Ab", "aB", "B"}
+	tinyStrs   = []string{"", "a", "b", "A", "ab", "Ab", "aB", "B", "s", "ſ", "\u212a"} // (s, long s and the Kelvin sign: one folding orbit each with S / k)
 	caseStrs   = []string{"ß", "ı", "İ", "ǅ", "ς", "ſ", "K", "Σ", "straße", "ǆ", "é", "É", "ÿ", "Ÿ", "ⅰ", "Ⅰ", "aßc", "İi",
 		// long ones (implementations may treat long strings differently, e.g. memoise conversions)
 		"The Quick Brown Fox Jumps Over The Lazy Dog 0123456789", "the quick brown fox jumps over the lazy dog 0123456789",
@@ -531,7 +533,7 @@ func (g *G) Config() Config {
 	}
 	if g.pct("ext") < 30 {
 		// (the empty extension is legal: object files are then named by their uuid alone)
-		c.Ext = rapid.SampledFrom([]string{".obj", ".j", ".data.v1", ".x1", "", ""}).Draw(g.t, "ext")
+		c.Ext = rapid.SampledFrom([]string{".obj", ".j", ".data.v1", ".x1", "", "", ".tmp", ".v2.tmp"}).Draw(g.t, "ext")
 	}
 	if c.Compress && g.pct("gzext") < 12 {
 		// an extension that itself ends in .gz is fine as long as compression is on
@@ -625,8 +627,21 @@ func (g *G) Leaf(conn string) Leaf {
 // regex: half of the time a fixed pattern, otherwise one built from a small grammar (anchors,
 // literals, classes, groups, alternation, counted and uncounted repetition) - always valid RE2.
 func (g *G) regex() string {
+	if len(g.strs) > 0 && g.pct("regexfold") < 25 {
+		// a case-insensitive literal spelled with the OTHER members of each rune's folding orbit
+		// (s-ſ-S, k-K-K, σ-ς-Σ ...) of a value used before: (?i) must equate them
+		v := pickU(g, g.strs, "regexfoldv")
+		if r := []rune(v); len(r) > 0 && len(r) <= 12 {
+			for i := range r {
+				r[i] = unicode.SimpleFold(r[i])
+			}
+			return "(?i)" + regexp.QuoteMeta(string(r))
+		}
+	}
 	if g.pct("regexfixed") < 45 {
-		return pickU(g, []string{"a", "^a", "b$", ".*", "^$", "[aA]", "A+", "a|b", "^(a|A)b?$", "x"}, "regex")
+		return pickU(g, []string{"a", "^a", "b$", ".*", "^$", "[aA]", "A+", "a|b", "^(a|A)b?$", "x",
+			// case-insensitive literals whose folding is not what ToLower / ToUpper do (s-ſ, k-K, σ-ς, i-İ-ı)
+			"(?i)s", "(?i)k", "(?i)σ", "(?i)i", "(?i:ss)", "(?i)strasse", "(?i)a"}, "regex")
 	}
 	out := ""
 	if g.pct("regexfold") < 10 {
